@@ -21,7 +21,7 @@ type C15Case struct {
 }
 
 var c15Kinds = []string{"absent", "present-valid", "present-garbage", "unwritable-EACCES", "unwritable-EROFS",
-	"dir-at-output", "log-unwritable", "log-is-dir", "mid-write", "stat-src-error", "open-EMFILE"}
+	"dir-at-output", "log-unwritable", "log-is-dir", "mid-write", "stat-src-error", "open-EMFILE", "commit-error"}
 
 var outVariants = []string{"same-dir", "subdir", "other-pkg", "outside", "parent-missing", "abs-same-dir"}
 
@@ -91,7 +91,7 @@ func genC15(cfg Config, ws *WorldSet, i, perWorld int) C15Case {
 			if r.Bool() {
 				present()
 			}
-			plan.Faults = append(plan.Faults, sim.Fault{Op: "WriteFile", Path: iv.OutPath, Kind: "open_err", Errno: strings.SplitN(base, "-", 2)[1]})
+			plan.Faults = append(plan.Faults, sim.Fault{Op: "OUTPUT-OPEN", Path: iv.OutPath, Kind: "open_err", Errno: strings.SplitN(base, "-", 2)[1]})
 		case "dir-at-output":
 			steps = append(steps, Step{Op: "mkdir", Path: iv.OutPath})
 		case "log-unwritable":
@@ -109,7 +109,14 @@ func genC15(cfg Config, ws *WorldSet, i, perWorld int) C15Case {
 		case "mid-write":
 			present()
 			k := sim.Pick(r, []int{0, 1, 17, 64, 200, 1000, -1})
-			plan.Faults = append(plan.Faults, sim.Fault{Op: "WriteFile", Path: iv.OutPath, Kind: "short_write", Errno: sim.Pick(r, []string{"ENOSPC", "EIO", "EFBIG", "EDQUOT"}), K: k})
+			plan.Faults = append(plan.Faults, sim.Fault{Op: "OUTPUT-OPEN", Path: iv.OutPath, Kind: "short_write", Errno: sim.Pick(r, []string{"ENOSPC", "EIO", "EFBIG", "EDQUOT"}), K: k})
+		case "commit-error":
+			// only reachable if the tree moves a file onto the output path (it does
+			// not today: then this is a plain fault-free case)
+			if r.Bool() {
+				present()
+			}
+			plan.Faults = append(plan.Faults, sim.Fault{Op: "OUTPUT-COMMIT", Path: iv.OutPath, Kind: "err", Errno: sim.Pick(r, []string{"EACCES", "EIO", "ENOSPC"})})
 		case "stat-src-error":
 			if r.Bool() {
 				present()
@@ -225,6 +232,11 @@ func execC15(env *sim.Env, c C15Case) CaseResult {
 	st.Inc("n:outcome:" + outcome)
 	if len(r.Pre.Diff(r.Post)) > 0 {
 		st.Inc("n:runs_that_changed_the_tree")
+	}
+	for _, f := range r.Obs.Fired {
+		if strings.HasSuffix(f, ":open_err") && !strings.HasPrefix(f, "OpenFile:") {
+			st.Inc("n:output_open_faults_fired")
+		}
 	}
 	if run.Inv.Dry || outcome == "fail" {
 		st.Inc("n:must_not_touch_output")
@@ -347,7 +359,7 @@ func runC15(cfg Config, args []string) int {
 		Assume: []string{"the frame is judged on the kernel's view of the scratch tree; HOME and GOCACHE of the go tool are outside the world and not part of the frame",
 			"checks run as root: EACCES/EROFS/EMFILE are injected at the os facade, ENOENT/EISDIR are real"},
 		Extra:    map[string]any{"components_real": componentsReal, "components_simulated": componentsSim, "seam": env.Seam, "simulated_time": "not applicable: convergen reads no clock; the facade clock was never read"},
-		Required: []string{"n:outcome:ok", "n:outcome:fail", "n:must_not_touch_output", "fired:WriteFile:open_err"},
+		Required: []string{"n:outcome:ok", "n:outcome:fail", "n:must_not_touch_output", "n:output_open_faults_fired"},
 	}
 	rep := RunBatch(b, start)
 	rep.Stats.Merge(pre)
